@@ -835,7 +835,15 @@ class Gen:
         nd = len(shape)
         new = []
         k = 0
-        if rng.random() < 0.1:
+        # The library parses the target greedily from the left and prefers "unfuse" whenever the sub-sizes of an
+        # axis match the next target dims, so a target is only *unambiguously* derivable if
+        #  R1  no axis that the plan keeps/regroups has sub-sizes equal to the target dims at its position, and
+        #  R2  new singleton dims are not mixed with existing size-one axes (either could be matched first).
+        # (Sparse fused axes - size smaller than the product of their sub-sizes - make such clashes possible;
+        #  on ambiguous targets reshape raises ValueError/IndexError, see the driver report.)
+        may_insert = not any(d == 1 for d in shape)
+        kept = []   # (axis, position in target) of axes not unfused by the plan
+        if may_insert and rng.random() < 0.1:
             new.append(1)
         while k < nd:
             r = rng.random()
@@ -845,13 +853,21 @@ class Gen:
                 k += 1
             elif r < 0.75 and k + 1 < nd:
                 g = int(rng.integers(2, min(3, nd - k) + 1))
+                kept.extend((kk, len(new)) for kk in range(k, k + g))
                 new.append(int(np.prod(shape[k:k + g])))
                 k += g
             else:
+                kept.append((k, len(new)))
                 new.append(shape[k])
                 k += 1
-            if rng.random() < 0.12:
+            if may_insert and rng.random() < 0.12:
                 new.append(1)
+        for kk, j in kept:
+            si = x.indices[kk].subinfo
+            if si is not None:
+                sub = [int(q.size_total) for q in si.indices]
+                if new[j:j + len(sub)] == sub:
+                    return None
         if new == shape:
             return None
         args = {"newshape": new}
